@@ -74,13 +74,8 @@ pub fn alias_cell_in_cell() {
 }
 
 // ---- typed content ---------------------------------------------------------------------------
-static CELL_TYPES: [Ty; 9] = [
-    Ty::Int, Ty::Float, Ty::Bool, Ty::Str, Ty::Union(&[Ty::Int, Ty::Float]), Ty::Arr(&Ty::Int),
-    Ty::Arr(&Ty::Union(&[Ty::Int, Ty::Float])), Ty::Any, Ty::Union(&[Ty::Int, Ty::Str]),
-];
-static RHS_TYPES: [Ty; 8] = [
-    Ty::Int, Ty::Float, Ty::Bool, Ty::Str, Ty::Union(&[Ty::Int, Ty::Float]), Ty::Arr(&Ty::Int), Ty::Arr(&Ty::Float), Ty::Void,
-];
+const CELL_TYPES: [Ty; 9] = [T_INT, T_FLOAT, T_BOOL, T_STR, T_U_INT_FLOAT, T_ARR_INT, T_ARR_U_INT_FLOAT, T_ANY, T_U_INT_STR];
+const RHS_TYPES: [Ty; 8] = [T_INT, T_FLOAT, T_BOOL, T_STR, T_U_INT_FLOAT, T_ARR_INT, T_ARR_FLOAT, T_VOID];
 const ASSIGN_OPS: [BinOperator; 12] = [
     BinOperator::Assign, BinOperator::AssignAdd, BinOperator::AssignSubtract, BinOperator::AssignMultiply,
     BinOperator::AssignDivide, BinOperator::AssignModulo, BinOperator::AssignPow, BinOperator::AssignLShift,
@@ -96,33 +91,37 @@ macro_rules! typed_content {
         #[kani::unwind(10)]
         #[kani::stub(alloc::fmt::format, crate::verif_common::stub_format)]
         pub fn $name() {
+            crate::verif_model::set_order(0);
             let op = ASSIGN_OPS[$opidx];
             let mut accepted = 0usize;
             let mut ti = 0;
             while ti < CELL_TYPES.len() {
-                let t = &CELL_TYPES[ti];
+                let t = CELL_TYPES[ti];
                 let mut ri = 0;
                 while ri < RHS_TYPES.len() {
-                    let r = &RHS_TYPES[ri];
-                    if can_be_used(&real(&Ty::Mut(t)), &real(r), op) {
+                    let r = RHS_TYPES[ri];
+                    let cell_type = Type::Mut(Arc::new(real(t)));
+                    if can_be_used(&cell_type, &real(r), op) {
                         accepted += 1;
-                        // member choices 0 and 1 of both sides (covers both members of the 2-unions,
-                        // empty and non-empty arrays)
-                        let mut k = 0;
-                        while k < 4 {
-                            let old = val(t, k % 2);
-                            let v = val(r, k / 2);
-                            if $pow_guard {
-                                if let Variable::Int(e) = &v { kani::assume(*e < 3); }
+                        let mut ko = 0;
+                        while ko < n_vals(t) {
+                            let mut kv = 0;
+                            while kv < n_vals(r) {
+                                let old = val(t, ko);
+                                let v = val(r, kv);
+                                if $pow_guard {
+                                    if let Variable::Int(e) = &v { kani::assume(*e < 3); }
+                                }
+                                let cell = new_cell(real(t), old);
+                                let res = assign_through(&Variable::Mut(cell.clone()), op, v);
+                                let content = cell.variable.read().unwrap().clone();
+                                assert!(in_ty(&content, t));
+                                if let Ok(y) = &res {
+                                    assert!(in_ty(y, t));
+                                }
+                                kv += 1;
                             }
-                            let cell = new_cell(real(t), old);
-                            let res = assign_through(&Variable::Mut(cell.clone()), op, v);
-                            let content = cell.variable.read().unwrap().clone();
-                            assert!(in_ty(&content, t));
-                            if let Ok(y) = &res {
-                                assert!(in_ty(y, t));
-                            }
-                            k += 1;
+                            ko += 1;
                         }
                     }
                     ri += 1;
@@ -151,36 +150,33 @@ typed_content!(typed_content_xor, 11, false);
 /// unions of cell types / of a cell and a non-cell as assignment target: whatever the checker
 /// answers, (1) the answer does not depend on the order the union is iterated in and (2) if it
 /// accepts, storing is sound for *every* member cell type.
-static TARGETS: [(Ty, Ty); 4] = [
-    (Ty::Mut(&Ty::Int), Ty::Mut(&Ty::Float)),
-    (Ty::Arr(&Ty::Int), Ty::Mut(&Ty::Int)),
-    (Ty::Mut(&Ty::Int), Ty::Mut(&Ty::Union(&[Ty::Int, Ty::Float]))),
-    (Ty::Mut(&Ty::Int), Ty::Int),
-];
+const TARGETS: [Ty; 3] = [T_U_MUTS, T_U_ARR_MUT, T_U_MUT_INT_MUT_U];
 #[kani::proof]
 #[kani::unwind(10)]
 #[kani::stub(alloc::fmt::format, crate::verif_common::stub_format)]
 pub fn union_target_sound_and_order_free() {
     let mut i = 0;
     while i < TARGETS.len() {
-        let (m1, m2) = (&TARGETS[i].0, &TARGETS[i].1);
+        let target = TARGETS[i];
+        let (m1, m2) = (desc(target).a, desc(target).b);
         let mut ri = 0;
         while ri < 2 {
-            let r = if ri == 0 { Ty::Int } else { Ty::Float };
+            let r = if ri == 0 { T_INT } else { T_FLOAT };
             let mut oi = 0;
             while oi < 2 {
                 let op = if oi == 0 { BinOperator::Assign } else { BinOperator::AssignAdd };
                 // the same union built in both insertion orders and iterated in both directions
                 crate::verif_model::set_order(0);
-                let v1 = can_be_used(&(real(m1) | real(m2)), &real(&r), op);
+                let v1 = can_be_used(&real(target), &real(r), op);
                 crate::verif_model::set_order(1);
-                let v2 = can_be_used(&(real(m1) | real(m2)), &real(&r), op);
+                let v2 = can_be_used(&real(target), &real(r), op);
                 crate::verif_model::set_order(0);
-                let v3 = can_be_used(&(real(m2) | real(m1)), &real(&r), op);
+                let v3 = can_be_used(&real_rev(target), &real(r), op);
                 assert!(v1 == v2 && v1 == v3);
                 if v1 {
-                    // sound only if every member is a cell whose content type admits the value
-                    let ok = |m: &Ty| match m { Ty::Mut(c) => real(&r).matches(&real(c)), _ => false };
+                    // sound only if every member is a cell whose content type admits the stored value
+                    let stored = if oi == 0 { real(r) } else { real(r) };
+                    let ok = |m: Ty| desc(m).k == 11 && stored.matches(&real(desc(m).a));
                     assert!(ok(m1) && ok(m2));
                 }
                 oi += 1;
